@@ -178,12 +178,8 @@ class C17(Prop):
 
   def strategy(self, tier):
     def some_callback(case):
-      # a chart without a single callback has no behaviour to compare (and never creates the
-      # callback registry); give its start state an entry callback
-      spec = case["spec"]
-      if not (any(spec["entry"]) or any(spec["exit"]) or any(spec["initc"]) or
-              any(x is not None for x in spec["init"]) or any(spec["react"])):
-        spec["entry"][case["start"]] = True
+      # (a chart without a single callback is a legal table too: every event is ignored, the start
+      # path is entered silently)
       return case
     flav = st.sampled_from([["function"], ["function"], ["function", "partial", "object", "method"], ["partial"],
                             ["object"], ["method"], ["function", "method"]])
